@@ -30,7 +30,7 @@ func TestVerifC12Twin(t *testing.T) {
 	vf := vfBegin(t, "C12")
 	defer vf.End()
 	rapid.Check(t, func(rt *rapid.T) {
-		srv := vfGenServer(rt, vfGenOpts{IPFilters: rapid.Bool().Draw(rt, "ipf"), IPPool: vfIPPool, Bias12: true})
+		srv := vfGenServer(rt, vfGenOpts{IPFilters: rapid.Bool().Draw(rt, "ipf"), IPPool: vfIPPool, Bias12: true, BodyLimit: rapid.Bool().Draw(rt, "bodylimit")})
 		srv.CacheSize = rapid.SampledFrom([]int{1, 2, 8, 64}).Draw(rt, "cache")
 		twin := srv
 		twin.CacheSize = 0
@@ -50,6 +50,13 @@ func TestVerifC12Twin(t *testing.T) {
 			extra = vfCollidingPair(rt, srv)
 		}
 		seq, _ := vfGenSeq(rt, srv, 5, 40, extra)
+		if rapid.Bool().Draw(rt, "bodies") {
+			// request bodies around the generated clientMaxBodySize values (10 / 1000 / -1 / default)
+			for i := range seq {
+				seq[i].BodyLen = rapid.SampledFrom([]int{0, 5, 20, 20, 2000}).Draw(rt, "bodylen")
+			}
+			vf.Class("sequence-with-bodies")
+		}
 
 		// shadow computation of the documented cache key (host+method+path): who populated it
 		firstByKey := map[string]vfReq{}
@@ -70,7 +77,7 @@ func TestVerifC12Twin(t *testing.T) {
 			} else {
 				firstByKey[ck] = req
 			}
-			if got.key() != want.key() || got.Calls != want.Calls {
+			if got.key() != want.key() || got.Calls != want.Calls || got.BodyLen != want.BodyLen {
 				key := vfC12Classify(srv, seq[:i+1], got, want)
 				vf.Violation(rt, key, "cache=%d position #%d\nspec:\n%s\nsequence:\n%swith cache: %s (calls %d)   without cache: %s (calls %d)",
 					srv.CacheSize, i, y, vfSeqString(seq[:i+1]), got.key(), got.Calls, want.key(), want.Calls)
@@ -105,6 +112,8 @@ func vfC12Classify(srv vfServer, seq []vfReq, got, want vfObserved) string {
 		}
 	}
 	switch {
+	case got.Status == 413 || want.Status == 413 || (got.Status == 200 && want.Status == 200 && got.Backend == want.Backend && got.Path == want.Path):
+		return "cached-route-applies-other-body-limit"
 	case prev != nil && (prev.Host != last.Host || prev.Method != last.Method):
 		return "cache-key-collision"
 	case want.Status == 403 && got.Status != 403:
